@@ -1,7 +1,7 @@
 (* Property C16 - only statements, each closed by [exact]. *)
 From Coq Require Import NArith List Bool.
 Import ListNotations.
-Require Import UV.Gen.Consts UV.C16.Model UV.C16.Proofs UV.C16.Frame UV.C16.Dirs UV.C16.Files UV.C16.NoMix.
+Require Import UV.Gen.Consts UV.C16.Model UV.C16.Proofs UV.C16.Frame UV.C16.Dirs UV.C16.Files UV.C16.Pick UV.C16.NoMix.
 Local Open Scope N_scope.
 
 (* read_all: for EVERY segmentation of the stream (chunks of any size, EINTRs in between) a request of
@@ -236,3 +236,21 @@ Theorem C16_sizes_from_2GiB_refuted : forall t ty len rest, good t = true -> byt
   match classify ty with KEnd | KOther => True | _ => handle_client_sock t = Died end.
 Proof. exact length_limit. Qed.
 Print Assumptions C16_sizes_from_2GiB_refuted.
+
+(* the directory-name search of recv_trace_dir_name always finds a free name (pigeonhole: every connected client
+   blocks at most two of the candidates NAME, NAME.1, NAME.2, ...; "%d" is injective). *)
+Theorem C16_directory_name_always_found : forall d cl, N.of_nat (length cl) < 1000000 -> mkdir_name true d cl <> None.
+Proof. exact mkdir_name_total. Qed.
+Print Assumptions C16_directory_name_always_found.
+
+(* for the code with the directory-name rule: connections that follow the protocol (SEND_DIR_NAME with ANY name -
+   the same ones included - first, then data/metadata, SEND_END last) never make `uftrace recv` exit, for every
+   interleaving.  With C16_no_mixing: every such client gets a directory of its own with exactly its own data. *)
+Theorem C16_sessions_survive : forall evs, N.of_nat (length evs) < 1000000 -> proto [] evs = true ->
+  run true evs server0 <> None.
+Proof. exact sessions_survive_fixed. Qed.
+Print Assumptions C16_sessions_survive.
+
+Theorem C16_sessions_survive_nonvacuous : proto [] evs_same = true /\ run true evs_same server0 <> None.
+Proof. exact proto_nonvacuous. Qed.
+Print Assumptions C16_sessions_survive_nonvacuous.
